@@ -286,7 +286,7 @@ func genMatches(r *emit.Rng, hostile bool) []string {
 }
 
 // label names for the ordinary streams: never contain "/" (known finding label-slash)
-var labelPool = []string{"job", "__name__", "instance", "a b", "é", "a%2Fb", "a?b", "a#b", ":name", "name", "a:b", "x:namey", "a+b", "a&b", "a=b", "漢字", "a%b", "a;b", "UPPER", "a.b", "a\\b"}
+var labelPool = []string{"job", "__name__", "instance", "a b", "é", "a%2Fb", "a?b", "a#b", ":name", "name", "a:b", "x:namey", "a+b", "a&b", "a=b", "漢字", "a%b", "a;b", "UPPER", "a.b", "a\\b", "", ".", "..", "a..b", "%2e%2e", "a\"b", "~", "a,b", "(x)", "a|b", "[x]", "a@b", "$x", "a'b", "*"}
 
 func genLabel(r *emit.Rng, hostile bool) string {
 	if hostile && r.Bool() {
@@ -924,6 +924,15 @@ func runC16(c *cli.Ctx) error {
 					addCase(w, &fails, call, "", behs, false, true, out)
 				}
 			}
+		}
+		// DoGetFallback: the POST answered with codes around 405 / 501
+		for k := 0; k < 150*c.Scale; k++ {
+			tag := []int{6, 8, 9, 10, 13}[r.Intn(5)]
+			call := genCall(r, tag, false)
+			first := genBeh(r, tag, false, []int{405, 501, 405, 501, 404, 406, 500, 502, 505, 415, 400, 200}[r.Intn(12)], false)
+			behs := []gbeh{first, genBeh(r, tag, false, 0, false)}
+			out := rn.run(call, "", behs, false, true)
+			addCase(w, &fails, call, "", behs, false, true, out)
 		}
 		// scripted cancellations and failures through the same layer
 		for k := 0; k < 60*c.Scale; k++ {
